@@ -292,8 +292,23 @@ def opener_branch_agreement(ctx, clause):
     for a in ('_dtype', '_shape', '_size'):
         v = opener.cls.init_attr_exprs.get(a)
         ok = isinstance(v, ast.Attribute) and v.attr == a.lstrip('_') and isinstance(v.value, ast.Name)
+        if not ok and v is not None:
+            # taken from the validated descriptor instead of the mapped object: equivalent only when the reader itself
+            # rejects what NumPy would have rejected (negative extents) — the item size / type come from the same table
+            rdr = opener.cls.methods.get('_read_arraydescr')
+            nonneg = rdr is not None and any(
+                isinstance(n, ast.If) and (always_raises(n.body) or always_raises(n.orelse)) and 'shape' in norm(_inl(rdr, n.test)) and
+                any(isinstance(c_, ast.Compare) and any(isinstance(o_, (ast.Lt, ast.GtE, ast.LtE, ast.Gt)) for o_ in c_.ops) and
+                    any(isinstance(k_, ast.Constant) and k_.value == 0 for k_ in [c_.left] + c_.comparators)
+                    for c_ in ast.walk(n.test)) for n in own_nodes(rdr.node))
+            t_ = norm(_inl(init, v))
+            from_descr = ("['shape']" in t_ or "['dtypedescr']" in t_ or 'arrayinfotodtype(' in t_ or
+                          t_ in ('product(self._shape)', 'np.prod(self._shape)', 'product(self.shape)'))
+            ok = nonneg and from_descr
         ctx.decide(ok, 'R-FLOW', clause, init, v, f'handle-cache::{a}',
-                   f'Array.__init__ caches {a} from the object the opener yields', detail=f'{a} = {norm(v) if v is not None else None}')
+                   f'Array.__init__ caches {a} from the object the opener yields',
+                   detail=f'{a} = {norm(v) if v is not None else None}: taken from the descriptor without NumPy (or an explicit '
+                          f'test) rejecting negative extents, whose product can still match the file size')
 
 
 def languages_over_registry(ctx, rl, regname='readcodefunc'):
@@ -615,8 +630,53 @@ def no_runtime_module_state(ctx, clause, modules):
                     for t in tg:
                         if isinstance(t, ast.Name):
                             containers[t.id] = st
+        # class-level containers (shared by all instances: the same kind of process-wide state)
+        cls_containers = {}
+        for c_ in m.classes.values():
+            for st in c_.node.body:
+                if isinstance(st, (ast.Assign, ast.AnnAssign)):
+                    tg = st.targets if isinstance(st, ast.Assign) else [st.target]
+                    v = st.value
+                    if v is not None and (isinstance(v, (ast.Dict, ast.List, ast.Set)) or
+                                          (isinstance(v, ast.Call) and dotted(v.func) in ('dict', 'list', 'set', 'OrderedDict',
+                                                                                          'collections.OrderedDict'))):
+                        for t in tg:
+                            if isinstance(t, ast.Name) and not (t.id.startswith('__') and t.id.endswith('__')):
+                                cls_containers[(c_.name, t.id)] = st
         for f in m.all_funcs():
             local = {n.id for n in own_nodes(f.node) if isinstance(n, ast.Name) and isinstance(n.ctx, ast.Store)} | set(f.params)
+            # stores into a class-level container: self.<c>[k] = v / cls.<c>[k] = v / <Class>.<c>[k] = v / type(self).<c>[k] = v
+            for n in own_nodes(f.node):
+                tgt = None
+                if isinstance(n, ast.Subscript) and isinstance(n.ctx, ast.Store) and isinstance(n.value, ast.Attribute):
+                    tgt, holder = n.value.attr, n
+                elif isinstance(n, ast.Call) and isinstance(n.func, ast.Attribute) and n.func.attr in MUT - {'pop', 'popitem', 'clear', 'remove', 'discard'} \
+                        and isinstance(n.func.value, ast.Attribute):
+                    tgt, holder = n.func.value.attr, n
+                if tgt is None:
+                    continue
+                owners_ = [cn for (cn, an) in cls_containers if an == tgt]
+                if not owners_:
+                    continue
+                if isinstance(holder, ast.Subscript):
+                    par = [p_ for p_, _ in enclosing(f.node, holder) if isinstance(p_, (ast.Assign, ast.AugAssign, ast.AnnAssign))]
+                    val = par[0].value if par else None
+                else:
+                    val = ast.Tuple(elts=list(holder.args) + [k.value for k in holder.keywords], ctx=ast.Load())
+                if val is None:
+                    continue
+                src = derived(f.node, val)
+                for w in ast.walk(f.node):
+                    if isinstance(w, ast.withitem) and w.optional_vars is not None and set(names_in(w.optional_vars)) & src:
+                        src |= derived(f.node, w.context_expr)
+                if not any(t in x for x in src for t in ('json.load', '.read', 'read_', 'fromfile', 'memmap', 'open', 'stat')):
+                    continue
+                n_ob += 1
+                ctx.bad('R-OWN', clause, f, holder, f'module-state::{mn}.{owners_[0]}.{tgt}',
+                        f'no class-level state of {mn}.py is filled at run time',
+                        detail=f'`{norm(holder)[:60]}` stores into the class-level container `{owners_[0]}.{tgt}` (shared by all '
+                               f'handles of the process): file content is remembered between calls, so later validation and reads '
+                               f'see the remembered content instead of what is on disk')
             globs = {x for n in own_nodes(f.node) if isinstance(n, ast.Global) for x in n.names}
             for n in own_nodes(f.node):
                 hit = None
